@@ -25,14 +25,14 @@ def parseStep (n : Nat) (allowed : Nat → String) (tok : String) : Option (Char
 def parseCase (line : String) : Option PCase :=
   match (line.trimAscii.toString.splitOn " ").filter (· ≠ "") with
   | host :: kinds :: acts => do
-      let lks ← parseKinds (host == "mixed") kinds
+      let lks ← parseKinds (host == "mixed" || host == "mset") kinds
       let ks := lks.map (·.2)
       let leg := lks.map (·.1)
       if ks.isEmpty || ks.length > 9 then none
       let allowed : Nat → String ← match host with
         | "cmd" | "core" => some fun _ => "pfwkrchabyx"
         | "legacy" | "lset" => some fun _ => "pfwkrcasS"
-        | "mixed" => some fun i => if leg.getD i false then "pfwkrcasS" else "pfwkrchabyxsS"
+        | "mixed" | "mset" => some fun i => if leg.getD i false then "pfwkrcasS" else "pfwkrchabyxsS"
         | _ => none
       let steps ← acts.mapM (parseStep ks.length allowed)
       pure { host := host, kinds := ks, leg := leg, steps := steps }
@@ -247,10 +247,27 @@ def oracleLset (c : PCase) (o : String) : String :=
   match (o.trimAscii.toString.splitOn " ").filter (· ≠ "") with
   | "set" :: toks =>
     if toks.length != (lsetSteps c).length then "reject malformed-observation" else
-    match toks.mapM parseSetTok with
+    match (toks.filter fun t => t != "panic" && t != "dead").mapM parseSetTok with
     | none => "reject unparseable-observation"
     | some sets => if sets.all fun s => S.Timer.setBounded s.1 s.2 then "ok" else "reject cleared-set-retains-finished-timer"
   | _ => "reject unparseable-observation"
+
+/-! host `mset`: the same occupancy in an app that uses both timer APIs (model `MWorld`, one counter, one set) -/
+
+def msetSteps (c : PCase) : List (MAct × Nat) :=
+  c.steps.map (fun s => (toMAct s.1, s.2)) ++ [(.tick, c.kinds.length)]
+
+/-- the harness stops using the Core at the first panic inside a core call (a command-API timer given a wrong response):
+    that step reads `panic`, every later one `dead` -/
+def msetRun : MWorld → List (MAct × Nat) → List String
+  | _, [] => []
+  | w, (a, i) :: rest =>
+    let r := mstep w a i
+    if r.2.any (·.res == .panic) then "panic" :: rest.map (fun _ => "dead")
+    else showSet r.1.lw :: msetRun r.1 rest
+
+def modelMset (c : PCase) : String :=
+  String.intercalate " " ("set" :: msetRun (mkMWorld baseCounter (c.leg.zip c.kinds)) (msetSteps c))
 
 def model (line : String) : String :=
   match threadsCase line with
@@ -260,6 +277,7 @@ def model (line : String) : String :=
   | none => "bad-case"
   | some c =>
     if c.host == "lset" then modelLset c else
+    if c.host == "mset" then modelMset c else
     let tc := typed c
     let (ids, recs) := runTyped tc
     let created := createdIds tc ids
@@ -321,7 +339,7 @@ def oracle (line : String) : String :=
     match parseCase c with
     | none => "bad-case"
     | some pc =>
-      if pc.host == "lset" then oracleLset pc o else
+      if pc.host == "lset" || pc.host == "mset" then oracleLset pc o else
       match typed pc with
       | .command host ts steps =>
         let ids := ts.map (·.id)
